@@ -67,6 +67,19 @@ def run(ctx):
                 for tau in G.taus_near_inrange_bessel_zero(rng, name == "sin", eps, (5 if eps == 0.1 else 3) if quick else 40):
                     cases.append({"fn": "gen", "name": name, "args": G.enc_args({"tau": tau, "epsilon": eps}), "ensure_bounded": True,
                                   "return_scale": False, "chebyshev_basis": True, "timeout": 300, "directed": "in-range Bessel zero"})
+        # cos / sin over a dense sweep of small tau (the truncation order changes every few tenths; a dropped top term shows only here)
+        for name in ("cos", "sin"):
+            for k in range(2, 33, (2 if quick else 1)):
+                tau = 0.25 * k
+                for eps in ((0.1,) if quick and k % 4 else (0.1, 0.03)):
+                    cases.append({"fn": "gen", "name": name, "args": G.enc_args({"tau": tau, "epsilon": eps}), "ensure_bounded": True,
+                                  "return_scale": False, "chebyshev_basis": rng.random() < 0.5, "timeout": 300, "directed": "small tau sweep"})
+        # the object-returning path (return_coef=False hands back the Chebyshev series itself) of cos / sin / 1/x
+        for name, a in (("invert", {"kappa": 3, "epsilon": 0.3}), ("invert", {"kappa": 2, "epsilon": 0.1}), ("cos", {"tau": 7.0, "epsilon": 0.1}),
+                        ("sin", {"tau": 5.0, "epsilon": 0.01})):
+            for cheb in (True, False):
+                cases.append({"fn": "gen", "name": name, "args": G.enc_args(a), "ensure_bounded": True, "return_scale": False,
+                              "chebyshev_basis": cheb, "return_coef": False, "timeout": 300, "directed": "object return"})
         # 1/x over its whole (kappa, epsilon) table, Chebyshev basis (high-accuracy requests included)
         for kappa, eps in ((1.5, 0.3), (2, 0.1), (3, 0.3), (3, 0.01), (4, 1e-3), (5, 0.1), (8, 0.05), (3, 1e-3), (5, 1e-3), (4, 1e-4), (8, 1e-2),
                            (1.2, 0.3), (1.15, 0.2), (1.4, 0.6), (1.3, 0.3), (1.05, 0.1), (1.25, 0.05)):      # incl. b = int(kappa^2 log(kappa/eps)) = 1, 2, 3
@@ -118,6 +131,8 @@ def run(ctx):
         if not c["chebyshev_basis"] and len(cf) > 25:
             ctx.bucket("monomial output of degree > 24: outside the quantifier, skipped")
             continue
+        if c.get("return_coef") is False:
+            c = dict(c, chebyshev_basis=True)
         if c["chebyshev_basis"]:
             cc = [float.fromhex(x) for x in cf]
         else:
